@@ -21,7 +21,7 @@ TECHNIQUE = "CrossHair-enumerated symbolic alias choices over the real finder.fi
 FUNCTIONS = ["codebasin/finder.py:ParserState._get_realpath/insert_file/get_tree/get_map/get_setmap", "codebasin/finder.py:find",
              "codebasin/platform.py:Platform.find_include_file", "codebasin/preprocessor.py:IncludeNode.evaluate_for_platform"]
 STUBS = ["vp.memfs mounted: os.path.realpath/isfile/abspath and Path.is_symlink/resolve answer from the in-memory tree with symlinks"]
-ASSUMPTIONS = ["hard links and the real realpath(3) are outside; the in-memory realpath resolves links segment by segment",
+ASSUMPTIONS = ["hard links and the real realpath(3) are outside; the in-memory realpath resolves links segment by segment (link text absolute or relative)",
                "aliases of an including file live in the same directory as their target, so that gcc's 'directory of the file as named' "
                "and CBI's 'directory of the resolved file' coincide for quote includes",
                "once the alias indices are decided the real code runs untraced on that leaf"]
@@ -44,7 +44,7 @@ I_SPELL = ["/r/src/sub", "/r/dl/sub", "/r/src/sub/../sub"]
 INC_SPELL = ['#include "sub/h.h"', "#include <h.h>", '#include "sub/../sub/h.h"']
 
 
-def _build(inc_a, inc_b):
+def _build(inc_a, inc_b, rel=False):
     files = {
         "/r/src/a.c": [INC_SPELL[inc_a], "#ifdef H", "@", "#endif", "#ifdef X", "@", "#endif", "@"],
         "/r/src/b.c": [INC_SPELL[inc_b], "@", INC_SPELL[inc_a], "@"],
@@ -53,6 +53,9 @@ def _build(inc_a, inc_b):
     }
     files["/r/a.c"] = ["@", "#ifdef DECOY", "@", "#endif"]  # decoy at the lexically collapsed path of /r/deep/../a.c
     links = {"/r/lnk_a.c": "/r/src/a.c", "/r/dl": "/r/src", "/r/deep": "/r/src/sub"}
+    if rel:
+        # the same links stored with relative link text (what `ln -s src/a.c lnk_a.c` creates)
+        links = {"/r/lnk_a.c": "src/a.c", "/r/dl": "src", "/r/deep": "./src/sub"}
     return files, links
 
 
@@ -60,7 +63,7 @@ def _pre(sa, sb, si, ia, ib):
     return 0 <= sa < 5 and 0 <= sb < 4 and 0 <= si < 3 and 0 <= ia < 3 and 0 <= ib < 3 and sa == P["fix"][0] and si == P["fix"][1]
 
 
-def h_alias(sa: int, sb: int, si: int, ia: int, ib: int, linkmember: bool, dx: bool) -> bool:
+def h_alias(sa: int, sb: int, si: int, ia: int, ib: int, linkmember: bool, dx: bool, rel: bool) -> bool:
     """
     pre: _pre(sa, sb, si, ia, ib)
     post: _
@@ -70,13 +73,13 @@ def h_alias(sa: int, sb: int, si: int, ia: int, ib: int, linkmember: bool, dx: b
         for k in range(n):
             if v == k:
                 idx.append(k)
-    lm, d = bool(linkmember), bool(dx)
+    lm, d, rl = bool(linkmember), bool(dx), bool(rel)
     STATS["compared"] += 1
     if P.get("_twin"):
         return False
     why = None
     with scen.untraced():
-        files, links = _build(idx[3], idx[4])
+        files, links = _build(idx[3], idx[4], rl)
         fs = scen.build_fs(files, links)
         twin = scen.build_fs(_build(0, 0)[0]) if False else scen.build_fs(files)  # same contents, no links
         defs = ["X"] if d else []
@@ -116,7 +119,7 @@ def h_alias(sa: int, sb: int, si: int, ia: int, ib: int, linkmember: bool, dx: b
             why = "exception " + repr(e)
     if P.get("_replay"):
         LAST.update(command_a=A_SPELL[idx[0]], command_b=B_SPELL[idx[1]], include_path=I_SPELL[idx[2]], include_a=INC_SPELL[idx[3]],
-                    include_b=INC_SPELL[idx[4]], links_are_members=lm, X=d, why=why)
+                    include_b=INC_SPELL[idx[4]], links_are_members=lm, X=d, relative_link_text=rl, why=why)
     return why is None
 
 
@@ -142,8 +145,8 @@ def replay(obd, cex):
     try:
         import codebasin.finder as finder
 
-        sa, sb, si, ia, ib, lm, d = args
-        files, links = _build(ia, ib)
+        sa, sb, si, ia, ib, lm, d, rl = args
+        files, links = _build(ia, ib, rl)
         fs = scen.build_fs(files, links)
         scratch = tempfile.mkdtemp(prefix="vp_c15_")
         try:
